@@ -31,7 +31,7 @@ import (
 )
 
 func init() {
-	register(&Prop{ID: "C20", Module: "V.C20.Check", Gen: c20Gen, Quick: 40, Thorough: 400, Shard: 80})
+	register(&Prop{ID: "C20", Module: "V.C20.Check", Gen: c20Gen, Quick: 40, Thorough: 400, Shard: 300})
 }
 
 var c20Ruler *textmeasure.Ruler
@@ -98,6 +98,11 @@ type c20End struct {
 	// Go-side mirror of the Coq predicate (for reading; the verdict is Coq's)
 	MinAbs float64 `json:"min_abs"`
 	Deep   float64 `json:"deepest"`
+	SDs    []float64 `json:"sds"`            // signed distance of P to every piece, same order as Pieces
+	OwnMargin [4]float64 `json:"own_margin"`  // Spacing() margin of the object: top, bottom, left, right
+	ObjSelfLoop bool `json:"obj_self_loop,omitempty"` // the object is both ends of some connection
+	CodeIconBox *c20Box `json:"code_icon_box,omitempty"` // the outside icon box with MAX_ICON_SIZE (what TraceToShape uses at a source)
+	NodeSD float64 `json:"node_sd"`           // signed distance of P to the box enlarged by that margin (the node ELK lays out)
 }
 
 type c20Conn struct {
@@ -113,6 +118,7 @@ type c20Conn struct {
 	Tags     []string `json:"tags,omitempty"`
 	GraphMargin  bool `json:"graph_margin,omitempty"`  // some object laid out in the same (nested) graph has a non-zero margin
 	GraphPadding bool `json:"graph_padding,omitempty"` // ... a non-zero label/icon padding
+	MarginBudget float64 `json:"margin_budget,omitempty"` // sum over the objects of that graph of their largest margin component
 	Related      string `json:"related,omitempty"`     // src-ancestor-of-dst | dst-ancestor-of-src
 	Route    [][2]float64 `json:"route"`
 	gRoute0  *geo.Point
@@ -175,6 +181,8 @@ func c20ObserveEnd(o *d2graph.Object, p *geo.Point) c20End {
 			e.IconSize = d2target.GetIconSize(box, pos.String())
 			tl := pos.GetPointOnBox(box, label.PADDING, float64(e.IconSize), float64(e.IconSize))
 			e.Pieces = append(e.Pieces, c20Piece{Kind: "icon", Box: &c20Box{tl.X, tl.Y, float64(e.IconSize), float64(e.IconSize)}})
+			tl = pos.GetPointOnBox(box, label.PADDING, d2target.MAX_ICON_SIZE, d2target.MAX_ICON_SIZE)
+			e.CodeIconBox = &c20Box{tl.X, tl.Y, d2target.MAX_ICON_SIZE, d2target.MAX_ICON_SIZE}
 		}
 	}
 	e.MinAbs, e.Deep = math.Inf(1), math.Inf(1)
@@ -188,7 +196,11 @@ func c20ObserveEnd(o *d2graph.Object, p *geo.Point) c20End {
 		}
 		e.MinAbs = math.Min(e.MinAbs, math.Abs(s))
 		e.Deep = math.Min(e.Deep, s)
+		e.SDs = append(e.SDs, s)
 	}
+	m, _ := o.Spacing()
+	e.OwnMargin = [4]float64{m.Top, m.Bottom, m.Left, m.Right}
+	e.NodeSD = math.Max(math.Max((o.TopLeft.X-m.Left)-p.X, p.X-(o.TopLeft.X+o.Width+m.Right)), math.Max((o.TopLeft.Y-m.Top)-p.Y, p.Y-(o.TopLeft.Y+o.Height+m.Bottom)))
 	return e
 }
 
@@ -232,6 +244,7 @@ func c20Observe(engine string, d *d2target.Diagram, g *d2graph.Graph) (conns []c
 		return nil, fmt.Sprintf("exported %d connections for %d edges", len(d.Connections), len(g.Edges))
 	}
 	scopeMargin, scopePadding := map[string]bool{}, map[string]bool{}
+	scopeBudget := map[string]float64{}
 	for _, o := range g.Objects {
 		if o.Box == nil || o.TopLeft == nil {
 			continue
@@ -239,9 +252,17 @@ func c20Observe(engine string, d *d2target.Diagram, g *d2graph.Graph) (conns []c
 		sc := c20Scope(g, o)
 		if c20HasMargin(o) {
 			scopeMargin[sc] = true
+			m, _ := o.Spacing()
+			scopeBudget[sc] += math.Max(math.Max(m.Top, m.Bottom), math.Max(m.Left, m.Right))
 		}
 		if c20HasPadding(o) {
 			scopePadding[sc] = true
+		}
+	}
+	loopObj := map[*d2graph.Object]bool{}
+	for _, e := range g.Edges {
+		if e.Src == e.Dst {
+			loopObj[e.Src] = true
 		}
 	}
 	for i, e := range g.Edges {
@@ -256,7 +277,7 @@ func c20Observe(engine string, d *d2target.Diagram, g *d2graph.Graph) (conns []c
 		if s1 != s2 || (e.Src.Parent != nil && e.Src.Parent.IsGridDiagram() && e.Src.Parent == e.Dst.Parent) {
 			c.Router = "default"
 		}
-		c.GraphMargin, c.GraphPadding = scopeMargin[s1], scopePadding[s1]
+		c.GraphMargin, c.GraphPadding, c.MarginBudget = scopeMargin[s1], scopePadding[s1], scopeBudget[s1]
 		if e.Src != e.Dst && e.Dst.IsDescendantOf(e.Src) {
 			c.Related = "src-ancestor-of-dst"
 		} else if e.Src != e.Dst && e.Src.IsDescendantOf(e.Dst) {
@@ -284,6 +305,7 @@ func c20Observe(engine string, d *d2target.Diagram, g *d2graph.Graph) (conns []c
 		if len(rt) >= 1 {
 			c.Src = c20ObserveEnd(e.Src, rt[0])
 			c.Dst = c20ObserveEnd(e.Dst, rt[len(rt)-1])
+			c.Src.ObjSelfLoop, c.Dst.ObjSelfLoop = loopObj[e.Src], loopObj[e.Dst]
 		}
 		conns = append(conns, c)
 	}
@@ -292,42 +314,195 @@ func c20Observe(engine string, d *d2target.Diagram, g *d2graph.Graph) (conns []c
 
 // ---- case generation ----
 
-// Known-finding signatures (narrow predicates on the INPUT: construct + engine + which router lays the edge out).
+// Known-finding signatures.  A signature is the INPUT predicate of a recorded defect (construct + engine + which router
+// lays the edge out) AND the geometry that the recorded mechanism predicts for the end point; an end that matches the
+// input predicate but whose deviation is not the predicted one keeps no tag and is reported as a violation.
 const (
-	c20KFDagreMargin  = "C20-dagre-margin-shift"
-	c20KFElkMargin    = "C20-elk-margin-end"
-	c20KFRouter3D     = "C20-router-3d-multiple"
-	c20KFContainerDesc = "C20-container-descendant-edge"
-	c20KFSrcIcon      = "C20-router-source-icon-size"
-	c20KFShortRay     = "C20-trace-border-short-ray"
-	c20KFC4Head       = "C20-c4person-head-overhang"
+	c20KFDagreMargin         = "C20-dagre-margin-shift"
+	c20KFElkMargin           = "C20-elk-margin-end"
+	c20KFRouter3D            = "C20-router-3d-multiple"
+	c20KFContainerDesc       = "C20-container-descendant-edge"
+	c20KFSrcIcon             = "C20-router-source-icon-size"
+	c20KFShortRay            = "C20-trace-border-short-ray"
+	c20KFC4Head              = "C20-c4person-head-overhang"
 	c20KFElkNonRectContainer = "C20-elk-nonrect-container"
+	c20KFOffsetSelfLoop      = "C20-offset-self-loop"
+	c20KFOffsetCopyChoice    = "C20-offset-copy-choice-nonrect"
+	c20KFDecoBoxes           = "C20-decoration-box-mismatch"
 )
+
+const c20Tol = 1.0
+
+// c20Geo: where the end point lies relative to the pieces of the visual extent.
+//   on: kinds of the pieces whose border it is on (within c20Tol);  in: kinds of the pieces it is strictly inside;
+//   untraced: on no border at all (the point floats beside the extent or sits inside a piece): what an end looks like
+//   that TraceToShape did not move.
+type c20Geo struct {
+	on, in   map[string]bool
+	untraced bool
+}
+
+func c20GeoOf(e *c20End) c20Geo {
+	g := c20Geo{on: map[string]bool{}, in: map[string]bool{}}
+	for i, pc := range e.Pieces {
+		switch s := e.SDs[i]; {
+		case math.Abs(s) <= c20Tol:
+			g.on[pc.Kind] = true
+		case s < -c20Tol:
+			g.in[pc.Kind] = true
+		}
+	}
+	g.untraced = len(g.on) == 0
+	return g
+}
+
+func c20Only(m map[string]bool, allowed ...string) bool {
+	if len(m) == 0 {
+		return false
+	}
+	for k := range m {
+		ok := false
+		for _, a := range allowed {
+			ok = ok || k == a
+		}
+		if !ok {
+			return false
+		}
+	}
+	return true
+}
+
+func c20SDBox(b c20Box, p [2]float64) float64 {
+	return math.Max(math.Max(b.X-p[0], p[0]-(b.X+b.W)), math.Max(b.Y-p[1], p[1]-(b.Y+b.H)))
+}
+
+// c20ExpectedCopy reconstructs the decision of the unchanged dagre/ELK code "use the 3d/multiple offset box": it is
+// taken from the pre-trace end point, which lies on the bounding box of the front copy on the line through the traced
+// point and its neighbour nb.  +1: the offset copy is expected, -1: the front copy, 0: cannot be told (within win px of
+// the decision boundary -- the cross-rank spacing of dagre may have moved the pre-trace point by up to the shape's own
+// margin --, or the line misses the box).
+func c20ExpectedCopy(e *c20End, nb [2]float64, win float64) int {
+	px, py := e.P[0], e.P[1]
+	dx, dy := px-nb[0], py-nb[1]
+	if dx == 0 && dy == 0 {
+		return 0
+	}
+	// first point of the ray nb + t*(p-nb), t >= 0, on the border of the front box
+	best := math.Inf(1)
+	try := func(t float64) {
+		if t < 0 || math.IsNaN(t) || math.IsInf(t, 0) {
+			return
+		}
+		x, y := nb[0]+t*dx, nb[1]+t*dy
+		if x >= e.Box.X-0.75 && x <= e.Box.X+e.Box.W+0.75 && y >= e.Box.Y-0.75 && y <= e.Box.Y+e.Box.H+0.75 && t < best {
+			best = t
+		}
+	}
+	if dx != 0 {
+		try((e.Box.X - nb[0]) / dx)
+		try((e.Box.X + e.Box.W - nb[0]) / dx)
+	}
+	if dy != 0 {
+		try((e.Box.Y - nb[1]) / dy)
+		try((e.Box.Y + e.Box.H - nb[1]) / dy)
+	}
+	if math.IsInf(best, 1) {
+		return 0
+	}
+	sx, sy := nb[0]+best*dx, nb[1]+best*dy
+	bx, by := e.Box.X+e.Dx, e.Box.Y+e.Box.H-e.Dy
+	switch {
+	case sx > bx+win && sy < by-win:
+		return 1
+	case sx < bx-win || sy > by+win:
+		return -1
+	}
+	return 0
+}
 
 func c20KF(c *c20Conn, e *c20End, isDst bool) []string {
 	var kf []string
-	if c.Engine == "dagre" && c.Router == "core" && c.GraphMargin {
+	if len(e.SDs) != len(e.Pieces) || len(e.Pieces) == 0 {
+		return nil
+	}
+	g := c20GeoOf(e)
+	core := c.Router == "core"
+	offset := e.ThreeD || e.Multiple
+	ownMargin := math.Max(math.Max(e.OwnMargin[0], e.OwnMargin[1]), math.Max(e.OwnMargin[2], e.OwnMargin[3]))
+	front := []string{"box", "outline"}
+	copies := []string{"box", "outline", "shifted", "outline-shifted"}
+	nb := [2]float64{}
+	if len(c.Route) >= 2 {
+		nb = c.Route[1]
+		if isDst {
+			nb = c.Route[len(c.Route)-2]
+		}
+	}
+
+	// dagre: shiftReachableDown moved the end point or the end's shape by the margins of the graph and TraceToShape
+	// found nothing to trace to: the point is on NO border and off by at most the margins that were shifted
+	if c.Engine == "dagre" && core && c.GraphMargin && g.untraced && e.MinAbs <= c.MarginBudget+c20Tol {
 		kf = append(kf, c20KFDagreMargin)
 	}
-	if c.Engine == "elk" && c.Router == "core" && e.Margin {
+	// ELK: the port stayed where the border of the node enlarged by the end's own margin was
+	if c.Engine == "elk" && core && e.Margin && g.untraced && e.MinAbs <= ownMargin+c20Tol {
 		kf = append(kf, c20KFElkMargin)
 	}
-	if c.Router == "default" && (e.ThreeD || e.Multiple) {
+	// dagre and ELK: a self loop on a 3d/multiple shape switches the SAME object to its offset box twice and undoes it
+	// once: the shape stays displaced by (dx,-dy) for every edge traced afterwards
+	if core && offset && e.ObjSelfLoop {
+		kf = append(kf, c20KFOffsetSelfLoop)
+	}
+	// dagre and ELK, non-rectangular 3d/multiple shapes: the copy is chosen from the bounding-box region of the pre-trace
+	// point; the traced point is on the outline of the CHOSEN copy but inside the other one
+	// (ELK: deleteBends re-traces the end with the box of the FRONT copy whatever was chosen: no expectation there)
+	if core && offset && !e.RectLike && c20Only(g.on, copies...) && c20Only(g.in, copies...) {
+		exp := 0
+		if c.Engine == "dagre" {
+			exp = c20ExpectedCopy(e, nb, 2+ownMargin)
+		}
+		onFront, onShifted := g.on["outline"], g.on["outline-shifted"]
+		if !((exp == 1 && onFront && !onShifted) || (exp == -1 && onShifted && !onFront)) {
+			kf = append(kf, c20KFOffsetCopyChoice)
+		}
+	}
+	// the label / icon box TraceToShape stops at is not the box d2svg draws: 3d/multiple shapes with an outside label or
+	// icon (box derived from the offset box vs. from the box around both copies), outside label and outside icon together
+	if core && ((offset && (e.OutLabel || e.OutIcon)) || (e.OutLabel && e.OutIcon)) &&
+		(g.on["label"] || g.on["icon"] || g.in["label"] || g.in["icon"]) {
+		kf = append(kf, c20KFDecoBoxes)
+	}
+	// DefaultRouter / d2grid never switch to the offset box: on the front copy, inside the copy behind it
+	if c.Router == "default" && offset && c20Only(g.on, front...) && c20Only(g.in, "shifted", "outline-shifted") {
 		kf = append(kf, c20KFRouter3D)
 	}
-	if (c.Related != "" || (c.SelfLoop && e.Container)) && (c.Router == "default" || c.Engine == "dagre") {
+	// container <-> own descendant (or self loop on a container): the container's end was never brought to its border:
+	// on no border, inside the container's own shape
+	if (c.Related != "" || (c.SelfLoop && e.Container)) && (c.Router == "default" || c.Engine == "dagre") &&
+		g.untraced && c20Only(g.in, copies...) {
 		kf = append(kf, c20KFContainerDesc)
 	}
-	if c.Engine == "elk" && c.Router == "core" && e.Container && !e.RectLike {
+	// ... and when one of the two is a 3d/multiple shape the edge reaches it from the inside of the container / passes
+	// under the copy drawn behind it: on the border of one copy, inside the other
+	if c.Related != "" && core && offset && c20Only(g.on, copies...) && c20Only(g.in, copies...) {
+		kf = append(kf, c20KFContainerDesc)
+	}
+	// ELK + non-rectangular container: the end was not brought to the outline: it stayed on the bounding box, or
+	// (container -> own descendant) on the ray between the bounding box and the outline
+	if c.Engine == "elk" && core && e.Container && !e.RectLike && g.untraced && c20SDBox(e.Box, e.P) <= c20Tol &&
+		(math.Abs(c20SDBox(e.Box, e.P)) <= c20Tol || c.Related != "") {
 		kf = append(kf, c20KFElkNonRectContainer)
 	}
-	if !e.RectLike && e.Box.H > 2*e.Box.W {
+	// TraceToShapeBorder's ray too short: the end stayed on the bounding box, outside the outline
+	if !e.RectLike && e.Box.H > 2*e.Box.W && len(g.in) == 0 && g.untraced && math.Abs(c20SDBox(e.Box, e.P)) <= c20Tol {
 		kf = append(kf, c20KFShortRay)
 	}
-	if e.Shape == "c4-person" && 0.44*e.Box.W > e.Box.H {
+	// c4-person: on the body outline, inside the head disc (or the other way round)
+	if e.Shape == "c4-person" && 0.44*e.Box.W > e.Box.H && c20Only(g.on, "outline") && c20Only(g.in, "outline") {
 		kf = append(kf, c20KFC4Head)
 	}
-	if c.Router == "default" && !isDst && e.OutIcon {
+	// source icon box built with MAX_ICON_SIZE: the end is on the border of THAT box
+	if c.Router == "default" && !isDst && e.OutIcon && e.CodeIconBox != nil && math.Abs(c20SDBox(*e.CodeIconBox, e.P)) <= c20Tol {
 		kf = append(kf, c20KFSrcIcon)
 	}
 	return kf
@@ -371,7 +546,7 @@ func c20EndCase(sc c20Script, c *c20Conn, e *c20End, o *d2graph.Object, other *d
 		pre = fmt.Sprintf("(Some (%s, %s))", c20EndObjT(o, isDst), nb)
 	}
 	cs.Coq = fmt.Sprintf("CEnd %s %s %s %s %s %s %s", coqBool(isDst), coqNat(c.N), c20P(e.P[0], e.P[1]), c20VisT(e), coqBool(e.RectLike), coqList(sds), pre)
-	cs.Impl = map[string]any{"engine": c.Engine, "router": c.Router, "route": c.Route, "end": e, "graph_margin": c.GraphMargin, "related": c.Related, "self_loop": c.SelfLoop}
+	cs.Impl = map[string]any{"engine": c.Engine, "router": c.Router, "route": c.Route, "end": e, "graph_margin": c.GraphMargin, "margin_budget": c.MarginBudget, "related": c.Related, "self_loop": c.SelfLoop}
 	cs.Nontrivial = true
 	cs.Key = fmt.Sprintf("%s|%s|%d|%s", c.Engine, sc.script, c.Index, which)
 	cs.KF = c20KF(c, e, isDst)
@@ -408,12 +583,18 @@ func c20Gen(r *Rng, tier string, n int) []Case {
 		}
 		scripts, n = keep, len(keep)
 	}
+	if only == "" && os.Getenv("C20_SCRIPT") == "" && n < len(scripts)+4 {
+		n = len(scripts) + 4 // the random classes are part of every tier
+	}
 	for tries := 0; len(scripts) < n && tries < 20*n; tries++ {
-		s := c20Random(r.Fork())
+		s, class := c20Random(r.Fork()), "random"
+		if tries%3 == 0 {
+			s, class = c20OffsetRandom(r.Fork()), "random-offset"
+		}
 		if _, _, err := c20Compile(s); err != nil {
 			continue
 		}
-		scripts = append(scripts, c20Script{s, "random"})
+		scripts = append(scripts, c20Script{s, class})
 	}
 	nSeq := 0
 	for _, sc := range scripts {
